@@ -59,6 +59,29 @@ def run(ctx):
             ctx.note("shrink failed: %r" % (e,))
         what = "after %s: implementation %r, specification %r" % (op[2:], d["impl"], d["other"])
         L.violation(ctx, sig, what, {"clause": what, "case": d["header"], "ops": ops, "how_to_replay": "bin/check C15 --replay <this file>"})
+    # one process, ONE TCP handler, several connections one after the other: the account the pool is asked to authorise for a
+    # connection is Model/Cred.lean's for the configured destination and that connection's miner name, whatever earlier
+    # connections did (harness/tcphandlers/verif_c17_test.go, the real NewTCPHandler)
+    hexe = L.build_harness(ctx, "tcphandlers")
+    handler_rows = 0
+    if hexe:
+        rc, out = L.run_harness(ctx, hexe, "TestVerifC17Handler$", env={"VERIF_N": 60 if ctx.tier == "quick" else 1200}, timeout=600)
+        himpl = ctx.out + "/c17h.impl.txt"
+        if rc != 0:
+            ctx.tie_failures.append("handler harness run failed (rc=%d): %s" % (rc, out[-300:]))
+        else:
+            rc, err = L.drv("model", "c17", himpl, himpl + ".model.txt")
+            if rc != 0:
+                ctx.tie_failures.append("driver model c17 failed: " + err[-200:])
+            else:
+                handler_rows = sum(1 for h, ls in L.parse_cases(himpl) for l in ls if l.startswith("> "))
+                for d in L.diff_cases(himpl, himpl + ".model.txt")[:1]:
+                    k = sum(1 for l in d["lines"][:d["first"]] if l.startswith("> "))
+                    L.violation(ctx, "c15:account-presented-depends-on-earlier-connections",
+                                "connection %d of one TCP handler: the pool was asked to authorise %r; for the configured destination and this miner's name it is %r (tokens: hex user, hex password)" % (k, d["impl"], d["other"]),
+                                {"clause": "the session proceeds only if the pool authorises the destination account, per connection", "case": d["header"],
+                                 "ops": [l for l in d["lines"][:d["first"]] if l.startswith("> ")], "seed": ctx.seed, "volume": 60 if ctx.tier == "quick" else 1200, "how_to_replay": "bin/check C15 --replay <this file>"})
+    ctx.coverage["handler_connections_checked"] = handler_rows
     outs, nops = {}, 0
     for h, lines in cases:
         for l in lines:
@@ -76,4 +99,22 @@ def run(ctx):
 
 
 def replay(ctx, path):
+    import json
+    rp = json.load(open(path))
+    if rp.get("signature", "").startswith("c15:account-presented"):
+        # the handler harness is seeded: the same seed and volume reproduce the same connections
+        ctx.seed = str(rp.get("seed", ctx.seed))
+        hexe = L.build_harness(ctx, "tcphandlers")
+        if not hexe or not L.build_driver(ctx):
+            print("cannot build harness/driver: %s" % ctx.tie_failures)
+            return 2
+        L.run_harness(ctx, hexe, "TestVerifC17Handler$", env={"VERIF_N": rp.get("volume", 60)}, timeout=600)
+        himpl = ctx.out + "/c17h.impl.txt"
+        L.drv("model", "c17", himpl, himpl + ".model.txt")
+        dd = L.diff_cases(himpl, himpl + ".model.txt")
+        for d in dd[:1]:
+            print("\n".join(d["lines"][:d["first"] + 1]))
+            print("model: %s" % d["other"])
+        print("REPLAY: %s" % ("the violation reproduces" if dd else "no violation"))
+        return 1 if dd else 0
     return L.generic_replay(ctx, path, HDIR, TEST, "c15", TRANSCRIPT)
